@@ -71,6 +71,7 @@ pub fn op_lm(a: &[&str]) -> String {
 ///   bin TY FMT MANT EXP MANY LOSSY   -> binary::<TY, FMT>
 ///   fp  TY FMT MANT EXP MANY [NEG]   -> Number::try_fast_path::<TY, FMT>  as `some <bits>` | `none`
 ///   sbin TY FMT EXP INTHEX FRACHEX|- -> slow_binary::<TY, FMT>
+///   sl  TY FMT MANT EXP MANY INTHEX FRACHEX|- m|FPMANT FPEXP -> slow_radix::<TY, FMT> (see `op_sl`)
 pub fn op_alg<const F: u128>(a: &[&str]) -> String {
     let op = a[0];
     let ty = a[1];
@@ -128,6 +129,24 @@ pub fn op_alg<const F: u128>(a: &[&str]) -> String {
             #[allow(unreachable_code)]
             "badop".into()
         },
+        "sl" => {
+            // sl TY FMT MANT EXP MANY INTHEX FRACHEX|- m | FPMANT FPEXP   (see `op_sl`)
+            let integer = crate::unhex(a[5]);
+            let fraction = if a[6] == "-" { None } else { Some(crate::unhex(a[6])) };
+            let num = Number {
+                exponent: a[3].parse().unwrap(),
+                mantissa: a[2].parse().unwrap(),
+                is_negative: false,
+                many_digits: a[4] == "1",
+                integer: &integer,
+                fraction: fraction.as_deref(),
+            };
+            match ty {
+                "f32" => op_sl::<f32, F>(num, &a[7..]),
+                "f64" => op_sl::<f64, F>(num, &a[7..]),
+                _ => "badop".into(),
+            }
+        },
         "fp" => {
             let neg = a.len() > 5 && a[5] == "1";
             let num = number(a[2], a[3], a[4], neg);
@@ -144,5 +163,33 @@ pub fn op_alg<const F: u128>(a: &[&str]) -> String {
             }
         },
         _ => "badop".into(),
+    }
+}
+
+/// The big-integer slow path `slow_radix::<F, FORMAT>(num, fp)` (generic radices only).
+///   `.. m`            the error float is what the crate's own moderate path returns for `num`:
+///                     `mod ok <bits> <mant> <exp>` when the moderate path decided (slow path not entered), else
+///                     `slow <bits> <mant> <exp> via <fp.mant> <fp.exp>` (`fp` after `fp.exp -= INVALID_FP`, as parse.rs passes it)
+///   `.. FPMANT FPEXP` the error float is given (already un-biased): `slow <bits> <mant> <exp>`
+fn op_sl<F: lexical_parse_float::float::LemireFloat, const FMT: u128>(num: Number, rest: &[&str]) -> String
+where
+    F::Unsigned: core::fmt::LowerHex,
+{
+    use lexical_parse_float::float::extended_to_float;
+    use lexical_parse_float::slow::slow_radix;
+    if rest[0] == "m" {
+        let mut fp = lexical_parse_float::parse::moderate_path::<F, FMT>(&num, false);
+        if fp.exp >= 0 {
+            return format!("mod {}", fp_line::<F>(fp));
+        }
+        fp.exp -= lexical_parse_float::shared::INVALID_FP;
+        let r = slow_radix::<F, FMT>(num, fp);
+        let f: F = extended_to_float::<F>(r);
+        format!("slow {:x} {} {} via {} {}", f.to_bits(), r.mant, r.exp, fp.mant, fp.exp)
+    } else {
+        let fp = ExtendedFloat80 { mant: rest[0].parse().unwrap(), exp: rest[1].parse().unwrap() };
+        let r = slow_radix::<F, FMT>(num, fp);
+        let f: F = extended_to_float::<F>(r);
+        format!("slow {:x} {} {}", f.to_bits(), r.mant, r.exp)
     }
 }
